@@ -632,6 +632,7 @@ def dispatchOp (line : String) : String :=
       | "fmt" => opFmt.run rest
       | "include" => opInclude.run rest
       | "update" => opUpdate.run rest
+      | "updatecv" => .ok ("unsupported", [])   -- custom row validator: outside the model (harness oracle)
       | "cliupdate" => (opUpdateWith false true).run rest
       | "cliformat" => (opUpdateWith true true).run rest
       | "climulti" => opCliMulti.run rest
